@@ -454,6 +454,72 @@ Theorem gen_solve_args_3d_default_origin (grid gridsize src : list T) nsweep rg 
 Proof. rewrite gen_solve_args_3d_eq. reflexivity. Qed.
 End Origin.
 
+
+(* ================================================================== round 3: package surface *)
+(* the package consists of exactly these source files (no other loadable file may sit next to them: apigen rejects it) *)
+Theorem gen_pkg_files :
+  ApiGen.pkg_files
+  = ["__about__.py"; "__init__.py"; "_base.py"; "_common.py";
+     "_fteik/__init__.py"; "_fteik/_common.py"; "_fteik/_fteik2d.py"; "_fteik/_fteik3d.py"; "_fteik/_ray2d.py";
+     "_fteik/_ray3d.py"; "_grid.py"; "_helpers.py";
+     "_interp/__init__.py"; "_interp/_interp2d.py"; "_interp/_interp3d.py"; "_interp/_vinterp2d.py";
+     "_interp/_vinterp3d.py"; "_io.py"; "_solver.py"]
+  /\ length ApiGen.pkg_files = 19%nat.
+Proof. split; reflexivity. Qed.
+
+(* module a name is imported from, according to an import table *)
+Definition imported_from (tbl : list (string * list string)) (n : string) : option string :=
+  match find (fun row => existsb (String.eqb n) (snd row)) tbl with Some r => Some (fst r) | None => None end.
+
+(* fteikpy/__init__.py consists of relative imports and __all__ only; every exported name is imported, from the module
+   that defines it (the classes from _solver / _grid, the thread helpers from _helpers, the converters from _io) *)
+Theorem gen_pkg_exports :
+  ApiGen.pkg_init_all
+  = ["Eikonal2D"; "Eikonal3D"; "Grid2D"; "Grid3D"; "TraveltimeGrid2D"; "TraveltimeGrid3D"; "get_num_threads";
+     "set_num_threads"; "grid_to_meshio"; "ray_to_meshio"; "__version__"]
+  /\ ApiGen.pkg_init_imports
+     = [(".__about__", ["__version__"]); ("._grid", ["Grid2D"; "Grid3D"; "TraveltimeGrid2D"; "TraveltimeGrid3D"]);
+        ("._helpers", ["get_num_threads"; "set_num_threads"]); ("._io", ["grid_to_meshio"; "ray_to_meshio"]);
+        ("._solver", ["Eikonal2D"; "Eikonal3D"])]
+  /\ map (imported_from ApiGen.pkg_init_imports) ApiGen.pkg_init_all
+     = [Some "._solver"; Some "._solver"; Some "._grid"; Some "._grid"; Some "._grid"; Some "._grid";
+        Some "._helpers"; Some "._helpers"; Some "._io"; Some "._io"; Some ".__about__"]
+  /\ map fst ApiGen.pkg_about = ["__version__"].
+Proof. repeat split; reflexivity. Qed.
+(* the two kernel sub-packages re-export the entry points from the modules the translator reads *)
+Theorem gen_pkg_subpackages :
+  ApiGen.pkg_fteik_all = ["fteik2d"; "fteik3d"; "solve2d"; "solve3d"; "ray2d"; "ray3d"]
+  /\ map (imported_from ApiGen.pkg_fteik_imports) ApiGen.pkg_fteik_all
+     = [Some "._fteik2d"; Some "._fteik3d"; Some "._fteik2d"; Some "._fteik3d"; Some "._ray2d"; Some "._ray3d"]
+  /\ ApiGen.pkg_interp_all = ["interp2d"; "interp3d"; "vinterp2d"; "vinterp3d"]
+  /\ map (imported_from ApiGen.pkg_interp_imports) ApiGen.pkg_interp_all
+     = [Some "._interp2d"; Some "._interp3d"; Some "._vinterp2d"; Some "._vinterp3d"]
+  /\ length (flat_map snd ApiGen.pkg_fteik_imports) = length ApiGen.pkg_fteik_all
+  /\ length (flat_map snd ApiGen.pkg_interp_imports) = length ApiGen.pkg_interp_all.
+Proof. repeat split; reflexivity. Qed.
+(* the thread helpers only forward to numba *)
+Theorem gen_helpers :
+  ApiGen.helpers_imports = [("import", ["numba"])]
+  /\ ApiGen.helpers_funcs = [("get_num_threads", ([], "return numba.get_num_threads()"));
+                             ("set_num_threads", (["n"], "numba.set_num_threads(n)"))].
+Proof. split; reflexivity. Qed.
+(* module level of the three API modules: these imports and these classes, nothing else (no module-level call,
+   assignment, function, try or decorator; class level: methods, and _ndim) *)
+Theorem gen_module_surface :
+  ApiGen.mod_base_imports
+  = [("abc", ["ABC"]); ("import", ["numpy as np"]); ("scipy.interpolate", ["RegularGridInterpolator"]);
+     ("scipy.ndimage", ["gaussian_filter"]); ("._interp", ["interp2d"; "interp3d"])]
+  /\ ApiGen.mod_base_classes = ["BaseGrid"; "BaseGrid2D"; "BaseGrid3D"; "BaseTraveltime"]
+  /\ ApiGen.mod_grid_imports
+     = [("import", ["numpy as np"]); ("._base", ["BaseGrid2D"; "BaseGrid3D"; "BaseTraveltime"]);
+        ("._fteik", ["ray2d"; "ray3d"]); ("._interp", ["vinterp2d"; "vinterp3d"])]
+  /\ ApiGen.mod_grid_classes = ["Grid2D"; "Grid3D"; "TraveltimeGrid2D"; "TraveltimeGrid3D"]
+  /\ ApiGen.mod_solver_imports
+     = [("import", ["numpy as np"]); ("._base", ["BaseGrid2D"; "BaseGrid3D"]); ("._fteik", ["solve2d"; "solve3d"]);
+        ("._grid", ["TraveltimeGrid2D"; "TraveltimeGrid3D"])]
+  /\ ApiGen.mod_solver_classes = ["Eikonal2D"; "Eikonal3D"].
+Proof. repeat split; reflexivity. Qed.
+
 Print Assumptions gen_axis_node_2d_zaxis_eq.
 Print Assumptions gen_axis_node_2d_xaxis_eq.
 Print Assumptions gen_axis_node_3d_zaxis_eq.
@@ -522,3 +588,8 @@ Print Assumptions gen_eikonal_origin_2d_default.
 Print Assumptions gen_eikonal_origin_3d_default.
 Print Assumptions gen_solve_args_2d_default_origin.
 Print Assumptions gen_solve_args_3d_default_origin.
+Print Assumptions gen_pkg_files.
+Print Assumptions gen_pkg_exports.
+Print Assumptions gen_pkg_subpackages.
+Print Assumptions gen_helpers.
+Print Assumptions gen_module_surface.
